@@ -233,6 +233,52 @@ def content(lines, nl='\n', final=1):
     return s
 
 
+# --- the FORM of a line-sequence argument -------------------------------------
+# check_strings documents lists of strings; check_string_against_file /
+# assertStringCorrect accept "a string (or list of strings)" and test for
+# `type(actual) in (list, tuple)`.
+CONTAINERS = ['list', 'tuple']
+
+
+def as_container(lines, form):
+    """A NEW object of the given form holding these lines."""
+    return tuple(lines) if form == 'tuple' else list(lines)
+
+
+# --- argument objects used more than once (C04 layer "reuse") ------------------
+# every base sequence followed by 0..3 empty lines: trailing empty elements are
+# the only ones the documented list convention lets the comparison drop
+REUSE_BASES = [[], ['a'], ['b'], ['a', 'b'], ['a', '', 'b'], [' a'], ['a1']]
+REUSE_TRAILING = [0, 1, 2, 3]
+
+
+def reuse_sequences():
+    for base in REUSE_BASES:
+        for k in REUSE_TRAILING:
+            yield list(base) + [''] * k
+
+
+# --- file names and the encoding keyword (C04 layer "names") -------------------
+# extension alphabet for both sides: ordinary text, the extension tdda treats
+# specially, none at all, upper case, and a special extension that is not
+# the last one
+ACT_NAMES = ['out.txt', 'out.pdf', 'out', 'OUT.PDF', 'out.pdf.out']
+REF_NAMES = ['ref.txt', 'ref.pdf', 'ref', 'REF.PDF', 'ref.pdf.ref']
+# values of encoding= (file) / encodings=[...] (list of files)
+ENCODINGS = [None, 'utf-8', 'iso-8859-1', 'UTF8']
+# lines: ASCII, non-ASCII, and what the non-ASCII line looks like when its
+# UTF-8 bytes are read as ISO-8859-1
+NAME_LINES = ['a', 'é', 'Ã©']
+NAME_POINTS = [{}, {'lstrip': True, 'rstrip': True},
+               {'preprocess': 'drop_eacute'}, {'max_permutation_cases': 2}]
+
+
+def extension_class(name):
+    """Lower-cased last extension ('' if none) - for signatures only."""
+    dot = name.rfind('.')
+    return name[dot + 1:].lower() if dot > 0 else 'none'
+
+
 # --- byte strings for the binary assertion -----------------------------------
 BYTE_ALPHABET = [b'a', b'b', b'\x00', b'\xff', b'\n']
 
@@ -277,7 +323,11 @@ class TextSandbox(object):
         self.ref = os.path.join(self.root, 'ref')
         self.act = os.path.join(self.root, 'act')
         self.tmp = os.path.join(self.root, 'tmp')
-        for d in (self.ref, self.act, self.tmp):
+        # a second configurable tmp_dir and a second reference location for
+        # the configuration histories (C15 layer "config")
+        self.tmp2 = os.path.join(self.root, 'tmp2')
+        self.ref2 = os.path.join(self.root, 'ref2')
+        for d in (self.ref, self.act, self.tmp, self.tmp2, self.ref2):
             os.mkdir(d)
         self.RT = ReferenceTest
         self._saved = (ReferenceTest.verbose, ReferenceTest.tmp_dir)
@@ -310,6 +360,10 @@ class TextSandbox(object):
 
     def call(self, method, *args, **kw):
         """('pass', None) | ('fail', message) | ('error', exception)."""
+        return self.call_on(self.rt, method, *args, **kw)
+
+    def call_on(self, rt, method, *args, **kw):
+        """The same through another ReferenceTest instance."""
         import contextlib
         import io
         self.RT.regenerate.clear()
@@ -317,7 +371,7 @@ class TextSandbox(object):
         try:
             with contextlib.redirect_stdout(sink), \
                     contextlib.redirect_stderr(sink):
-                getattr(self.rt, method)(*args, **kw)
+                getattr(rt, method)(*args, **kw)
             return ('pass', None)
         except AssertFailed as e:
             return ('fail', e.args[0] if e.args else '')
